@@ -15,6 +15,7 @@ import (
 	"path/filepath"
 	"sort"
 	"strings"
+	"sync"
 )
 
 // Case is one call of a modelled entry point.
@@ -239,6 +240,52 @@ func (r *Run) Write(dir string) error {
 				r.Fail("result-depends-on-earlier-calls", trunc(r.cases[idx[k]].Line(), 1500),
 					"the same call gave another result when repeated after other calls: "+firstDiff(first[k], again))
 				break
+			}
+		}
+	}
+	// ... and they are functions of their arguments also when several goroutines call them at once (a server with one
+	// loop per interface, a pool of workers decoding): a sample of the cases, run on 8 goroutines at the same time,
+	// each in its own order, gives the results the calls give one after another
+	if len(r.cases) > 0 {
+		var idx []int
+		stride := len(r.cases)/4000 + 1
+		for i := 0; i < len(r.cases); i += stride {
+			if e := r.cases[i].Entry; e < 70 && e != eV4Accessor {
+				idx = append(idx, i)
+			}
+		}
+		if len(idx) > 1 {
+			want := make([]string, len(idx))
+			for k, i := range idx {
+				want[k] = RunGo(r.cases[i])
+			}
+			type diff struct{ k int; got string }
+			found := make(chan diff, 16)
+			var wg sync.WaitGroup
+			for g := 0; g < 8; g++ {
+				wg.Add(1)
+				go func(g int) {
+					defer wg.Done()
+					for round := 0; round < 2; round++ {
+						for j := range idx {
+							k := (j*(2*g+1) + g*len(idx)/8 + round) % len(idx)
+							if got := RunGo(r.cases[idx[k]]); got != want[k] {
+								select {
+								case found <- diff{k, got}:
+								default:
+								}
+								return
+							}
+						}
+					}
+				}(g)
+			}
+			wg.Wait()
+			select {
+			case d := <-found:
+				r.Fail("result-depends-on-concurrent-calls", trunc(r.cases[idx[d.k]].Line(), 1500),
+					"the same call gave another result while other goroutines were making other calls: "+firstDiff(want[d.k], d.got))
+			default:
 			}
 		}
 	}
